@@ -1,10 +1,368 @@
 package main
 
+// Shape classification of one `for ... range <map>` statement (C19).
+//
+// The loop body (through if / switch / blocks / nested loops) is reduced to a set of effect kinds:
+//
+//	append   x = append(x, ...)  or  m[k] = append(m[k], ...)       (ordered accumulation into x / m)
+//	store    m[k] = v, delete(m, k)                                  (map-to-map)
+//	write    fmt.Fprint*(w, ...), x.WriteString/Write/WriteByte/WriteRune(...), x += <non-constant>
+//	assign   x = v for an x declared outside the loop (last writer wins)
+//	count    x++ / x-- / x += <integer literal> on an outer variable
+//	call     any other call used as a statement (effect not visible here)
+//	log      a call on a logger (Warnf, Infof, ...): diagnostics, not output
+//	exit     break out of the loop / return that is not an error return (first entry met wins)
+//	probe    return of constants only (true/false/nil/literals): an exists/forall test
+//
+// Calls in expression position (right-hand sides, conditions) are taken to be effect-free, except a call
+// whose only results are `err` / `_` (made for its effect: counted as call); x = make(...) is ignored; error exits
+// (`if err != nil { return ... }`, panic) are ignored: which error is reported first is outside C19.
+//
+// Classes, in order of precedence:
+//
+//	Emit         write / assign / exit, or an append whose target is not sorted afterwards in the function
+//	Delegate     a call statement and none of the above
+//	CollectSort  appends only to targets that are sorted after the loop (sort.Strings/Ints/Slice/SliceStable/
+//	             Sort/Stable or a .Sort*() method on the target), possibly with map stores
+//	MapInsert    map stores / deletes only
+//	LogOnly      logger calls only
+//	Reduce       counters / probes only
+//	NoEffect     nothing visible
 import (
 	"go/ast"
+	"go/token"
 	"go/types"
+	"sort"
+	"strings"
 )
 
+type effects struct {
+	appends map[string]bool // printed target expression
+	kinds   map[string]bool
+}
+
+var writeMethods = map[string]bool{"WriteString": true, "Write": true, "WriteByte": true, "WriteRune": true,
+	"Fprintf": true, "Fprint": true, "Fprintln": true, "Printf": true, "Println": true, "Print": true}
+var logMethods = map[string]bool{"Warnf": true, "Warn": true, "Warnln": true, "Infof": true, "Info": true, "Infoln": true,
+	"Debugf": true, "Debug": true, "Debugln": true, "Errorf": true, "Error": true, "Errorln": true, "Tracef": true, "Trace": true}
+
+func isLoggerExpr(e ast.Expr) bool {
+	ch := selChain(e)
+	if len(ch) == 0 {
+		return false
+	}
+	last := strings.ToLower(ch[len(ch)-1])
+	return last == "log" || last == "logger" || last == "logrus"
+}
+
+// baseIdent returns the leftmost identifier of x, x.f, x[i], *x, (x)
+func baseIdent(e ast.Expr) *ast.Ident {
+	for {
+		switch x := e.(type) {
+		case *ast.Ident:
+			return x
+		case *ast.SelectorExpr:
+			e = x.X
+		case *ast.IndexExpr:
+			e = x.X
+		case *ast.StarExpr:
+			e = x.X
+		case *ast.ParenExpr:
+			e = x.X
+		default:
+			return nil
+		}
+	}
+}
+
 func classifyRange(si *srcImporter, info *types.Info, fd *ast.FuncDecl, rs *ast.RangeStmt) (string, string) {
-	return "Other", ""
+	ef := &effects{appends: map[string]bool{}, kinds: map[string]bool{}}
+	// declaredInside: objects defined within the loop statement (key/value variables, locals)
+	inside := func(id *ast.Ident) bool {
+		obj := info.Uses[id]
+		if obj == nil {
+			obj = info.Defs[id]
+		}
+		if obj == nil {
+			return false
+		}
+		return obj.Pos() >= rs.Pos() && obj.Pos() <= rs.End()
+	}
+	isErrReturn := func(stack []ast.Node) bool {
+		// innermost enclosing if whose condition mentions `err` / `!ok`-style failure: `x != nil`
+		for i := len(stack) - 1; i >= 0; i-- {
+			if is, ok := stack[i].(*ast.IfStmt); ok {
+				cond := nodeSrc(si, is.Cond)
+				if strings.Contains(cond, "err") && strings.Contains(cond, "!= nil") {
+					return true
+				}
+			}
+			if stack[i] == ast.Node(rs) {
+				break
+			}
+		}
+		return false
+	}
+	var stack []ast.Node
+	loopDepth := 0 // nested for/range/switch/select statements between rs and the current node (break binds to them)
+	var walk func(n ast.Node)
+	walkList := func(l []ast.Stmt) {
+		for _, s := range l {
+			walk(s)
+		}
+	}
+	walk = func(n ast.Node) {
+		if n == nil {
+			return
+		}
+		stack = append(stack, n)
+		defer func() { stack = stack[:len(stack)-1] }()
+		switch s := n.(type) {
+		case *ast.BlockStmt:
+			walkList(s.List)
+		case *ast.IfStmt:
+			walk(s.Init)
+			walk(s.Body)
+			if s.Else != nil {
+				walk(s.Else)
+			}
+		case *ast.SwitchStmt:
+			walk(s.Init)
+			loopDepth++
+			walk(s.Body)
+			loopDepth--
+		case *ast.TypeSwitchStmt:
+			walk(s.Init)
+			loopDepth++
+			walk(s.Body)
+			loopDepth--
+		case *ast.CaseClause:
+			walkList(s.Body)
+		case *ast.ForStmt:
+			walk(s.Init)
+			walk(s.Post)
+			loopDepth++
+			walk(s.Body)
+			loopDepth--
+		case *ast.RangeStmt:
+			loopDepth++
+			walk(s.Body)
+			loopDepth--
+		case *ast.LabeledStmt:
+			walk(s.Stmt)
+		case *ast.DeclStmt, *ast.EmptyStmt:
+		case *ast.IncDecStmt:
+			if id := baseIdent(s.X); id != nil && !inside(id) {
+				ef.kinds["count"] = true
+			}
+		case *ast.AssignStmt:
+			// err := f(...)  /  _ = f(...)  /  if err := f(...); err != nil: a call made for its effect
+			if len(s.Rhs) == 1 {
+				if _, isCall := s.Rhs[0].(*ast.CallExpr); isCall {
+					onlyErr := true
+					for _, lhs := range s.Lhs {
+						id, ok := lhs.(*ast.Ident)
+						if !ok || (id.Name != "_" && id.Name != "err") {
+							onlyErr = false
+						}
+					}
+					if onlyErr {
+						ef.kinds["call"] = true
+						return
+					}
+				}
+			}
+			if s.Tok == token.DEFINE {
+				return
+			}
+			for i, lhs := range s.Lhs {
+				if id, ok := lhs.(*ast.Ident); ok && id.Name == "_" {
+					continue
+				}
+				var rhs ast.Expr
+				if len(s.Rhs) == len(s.Lhs) {
+					rhs = s.Rhs[i]
+				} else if len(s.Rhs) == 1 {
+					rhs = s.Rhs[0]
+				}
+				// x = append(x, ...)
+				if call, ok := rhs.(*ast.CallExpr); ok && isIdent(call.Fun, "append") && s.Tok == token.ASSIGN {
+					tgt := lhs
+					if ix, ok := lhs.(*ast.IndexExpr); ok {
+						if isMap, _ := isMapType(info.TypeOf(ix.X)); isMap {
+							tgt = ix.X // m[k] = append(m[k], ...): ordered accumulation inside m
+						}
+					}
+					if id := baseIdent(tgt); id != nil && inside(id) {
+						continue
+					}
+					ef.appends[nodeSrc(si, tgt)] = true
+					ef.kinds["append"] = true
+					continue
+				}
+				if ix, ok := lhs.(*ast.IndexExpr); ok {
+					if isMap, _ := isMapType(info.TypeOf(ix.X)); isMap {
+						if id := baseIdent(ix.X); id != nil && inside(id) {
+							continue
+						}
+						ef.kinds["store"] = true
+						continue
+					}
+				}
+				id := baseIdent(lhs)
+				if id == nil || inside(id) {
+					continue
+				}
+				if call, ok := rhs.(*ast.CallExpr); ok && isIdent(call.Fun, "make") {
+					continue // x = make(...): allocation of an empty container (lazy initialisation)
+				}
+				switch s.Tok {
+				case token.ASSIGN:
+					ef.kinds["assign"] = true
+				case token.ADD_ASSIGN:
+					if lit, ok := rhs.(*ast.BasicLit); ok && (lit.Kind == token.INT) {
+						ef.kinds["count"] = true
+					} else if lit, ok := rhs.(*ast.BasicLit); ok && lit.Kind == token.STRING && (lit.Value == `""` || lit.Value == "``") {
+						// result += "" : no effect
+					} else if b, ok := info.TypeOf(lhs).Underlying().(*types.Basic); ok && b.Info()&types.IsNumeric != 0 {
+						ef.kinds["count"] = true // numeric sum: commutative
+					} else {
+						ef.kinds["write"] = true
+					}
+				default:
+					ef.kinds["assign"] = true
+				}
+			}
+		case *ast.ExprStmt:
+			call, ok := s.X.(*ast.CallExpr)
+			if !ok {
+				return
+			}
+			if isIdent(call.Fun, "delete") {
+				if len(call.Args) > 0 {
+					if id := baseIdent(call.Args[0]); id != nil && inside(id) {
+						return
+					}
+				}
+				ef.kinds["store"] = true
+				return
+			}
+			if isIdent(call.Fun, "panic") {
+				return
+			}
+			if sel, ok := call.Fun.(*ast.SelectorExpr); ok {
+				if logMethods[sel.Sel.Name] && isLoggerExpr(sel.X) {
+					ef.kinds["log"] = true
+					return
+				}
+				if writeMethods[sel.Sel.Name] {
+					ef.kinds["write"] = true
+					return
+				}
+				// method on a map-based set type (syslutil.StrSet.Insert/Remove): a map store
+				if isMap, known := isMapType(info.TypeOf(sel.X)); known && isMap && (sel.Sel.Name == "Insert" || sel.Sel.Name == "Remove") {
+					if id := baseIdent(sel.X); id == nil || !inside(id) {
+						ef.kinds["store"] = true
+					}
+					return
+				}
+			}
+			ef.kinds["call"] = true
+		case *ast.GoStmt, *ast.DeferStmt, *ast.SendStmt:
+			ef.kinds["call"] = true
+		case *ast.ReturnStmt:
+			if isErrReturn(stack) {
+				return
+			}
+			// `return false` / `return true` / `return nil`: an exists/forall probe, the same whichever entry triggers it
+			constant := len(s.Results) > 0
+			for _, r := range s.Results {
+				switch x := r.(type) {
+				case *ast.BasicLit:
+				case *ast.Ident:
+					if x.Name != "true" && x.Name != "false" && x.Name != "nil" {
+						constant = false
+					}
+				default:
+					constant = false
+				}
+			}
+			if constant {
+				ef.kinds["probe"] = true
+			} else {
+				ef.kinds["exit"] = true
+			}
+		case *ast.BranchStmt:
+			if s.Tok == token.BREAK && loopDepth == 0 && !isErrReturn(stack) {
+				ef.kinds["exit"] = true
+			}
+			if s.Tok == token.GOTO {
+				ef.kinds["exit"] = true
+			}
+		}
+	}
+	walk(rs.Body)
+
+	// which append targets are sorted after the loop, inside the same function?
+	unsorted := []string{}
+	for tgt := range ef.appends {
+		if !sortedAfter(si, fd, rs, tgt) {
+			unsorted = append(unsorted, tgt)
+		}
+	}
+	sort.Strings(unsorted)
+	var ks []string
+	for k := range ef.kinds {
+		ks = append(ks, k)
+	}
+	sort.Strings(ks)
+	detail := strings.Join(ks, "+")
+	if len(unsorted) > 0 {
+		detail += " unsorted:" + strings.Join(unsorted, ",")
+	}
+	k := ef.kinds
+	switch {
+	case k["write"] || k["assign"] || k["exit"] || len(unsorted) > 0:
+		return "Emit", detail
+	case k["call"]:
+		return "Delegate", detail
+	case k["append"]:
+		return "CollectSort", detail
+	case k["store"]:
+		return "MapInsert", detail
+	case k["log"]:
+		return "LogOnly", detail
+	case k["count"] || k["probe"]:
+		return "Reduce", detail
+	}
+	return "NoEffect", detail
+}
+
+var sortFuncs = map[string]bool{"Strings": true, "Ints": true, "Float64s": true, "Slice": true, "SliceStable": true, "Sort": true, "Stable": true}
+
+// sortedAfter: is there, after the loop and in the same function, a call sort.X(<expr mentioning tgt>, ...)
+// or <tgt>.Sort...() ?
+func sortedAfter(si *srcImporter, fd *ast.FuncDecl, rs *ast.RangeStmt, tgt string) bool {
+	found := false
+	ast.Inspect(fd.Body, func(n ast.Node) bool {
+		call, ok := n.(*ast.CallExpr)
+		if !ok || call.Pos() < rs.End() {
+			return true
+		}
+		sel, ok := call.Fun.(*ast.SelectorExpr)
+		if !ok {
+			return true
+		}
+		if isIdent(sel.X, "sort") && sortFuncs[sel.Sel.Name] && len(call.Args) > 0 {
+			arg := nodeSrc(si, call.Args[0])
+			if arg == tgt || strings.Contains(arg, "("+tgt+")") {
+				found = true
+			}
+		}
+		if strings.HasPrefix(sel.Sel.Name, "Sort") && nodeSrc(si, sel.X) == tgt {
+			found = true
+		}
+		return true
+	})
+	return found
 }
